@@ -168,7 +168,68 @@ pub fn run(ctx: &mut Ctx) {
             if fail.is_some() || retired {
                 break;
             }
-            let op = rng.usize(0, 9);
+            let op = rng.usize(0, 10);
+            if op == 10 {
+                // ---- poison and repair: a non-finite value goes in through an ACCEPTED partial update (there is no
+                // finiteness check), the solver may be asked to solve the poisoned problem, and the same entry is then
+                // set back to the model's value.  The final data are the model's again, so every later solve must
+                // behave like a fresh solver: nothing non-finite may survive in a workspace, cache or factorisation
+                if presolve_active {
+                    continue;
+                }
+                let target = *rng.choose(&['q', 'b', 'A', 'P']);
+                let len = match target {
+                    'q' => n,
+                    'b' => m,
+                    'A' => nnza,
+                    _ => nnzp,
+                };
+                if len == 0 {
+                    continue;
+                }
+                let k = rng.usize(0, len - 1);
+                let bad = *rng.choose(&[f64::NAN, f64::INFINITY, f64::NEG_INFINITY]);
+                let good = match target {
+                    'q' => model.q[k],
+                    'b' => model.b[k],
+                    'A' => model.a.nzval[k],
+                    _ => model.p.nzval[k],
+                };
+                macro_rules! map_err {
+                    ($e:expr) => {
+                        $e.map_err(|e| format!("{e:?}"))
+                    };
+                }
+                let apply = |solver: &mut DefaultSolver<f64>, v: f64| -> Result<(), String> {
+                    let tup = (vec![k], vec![v]);
+                    catch(std::panic::AssertUnwindSafe(|| match target {
+                        'q' => map_err!(solver.update_q(&tup)),
+                        'b' => map_err!(solver.update_b(&tup)),
+                        'A' => map_err!(solver.update_A(&tup)),
+                        _ => map_err!(solver.update_P(&tup)),
+                    }))
+                    .unwrap_or_else(|e| Err(format!("PANIC {e}")))
+                };
+                let r1 = apply(&mut solver, bad);
+                let mut poisoned_status = None;
+                if r1.is_ok() && rng.bool(0.7) {
+                    // whatever this solve does (it is not a well-formed problem) is not judged, a panic included
+                    poisoned_status = match problem::solve_observed(&mut solver) {
+                        Ok(_) => Some(status_name(solver.solution.status).to_string()),
+                        Err(_) => Some("panic".to_string()),
+                    };
+                }
+                let r2 = apply(&mut solver, good);
+                hist.push(json!({"op": format!("poison_and_repair_{target}"), "index": k, "value": problem::fj(bad), "poison_result": format!("{r1:?}"), "solve_while_poisoned": poisoned_status, "repair_result": format!("{r2:?}")}));
+                ctx.bump("poison_and_repair_steps");
+                if r1.is_ok() && r2.is_err() {
+                    fail = Some(("repair_update_refused".into(), json!({"result": format!("{r2:?}")})));
+                }
+                if r1.is_err() {
+                    ctx.bump("poison_updates_refused");
+                }
+                continue;
+            }
             if op >= 7 {
                 // ---- solve and compare with a freshly built solver on the model data
                 let ev = problem::solve_observed(&mut solver);
@@ -223,6 +284,18 @@ pub fn run(ctx: &mut Ctx) {
                 if let Ok(fresh) = problem::run(&pm_problem, &st) {
                     ctx.eval(1);
                     let (vl, vf) = (verdict_class(res.status), verdict_class(fresh.status));
+                    // the very first iterate of the live solver reports finite figures wherever the fresh solver's
+                    // does: the model data are finite, so a NaN there is state that survived from an earlier
+                    // (possibly poisoned) solve - a run that ends without verdict is not compared otherwise
+                    if let (Some(l0), Some(f0)) = (res.events.first(), fresh.events.first()) {
+                        let fig = |e: &clarabel::verif::IterEvent| [e.res_primal, e.res_dual, e.res_primal_inf, e.res_dual_inf, e.cost_primal, e.cost_dual, e.μ];
+                        let names = ["res_primal", "res_dual", "res_primal_inf", "res_dual_inf", "cost_primal", "cost_dual", "mu"];
+                        for (k, (a, b)) in fig(l0).iter().zip(fig(f0).iter()).enumerate() {
+                            if b.is_finite() && !a.is_finite() && fail.is_none() {
+                                fail = Some(("non_finite_state_in_live_solver".into(), json!({"figure": names[k], "live_first_iterate": problem::fj(*a), "fresh_first_iterate": *b, "live_status": status_name(res.status), "fresh_status": status_name(fresh.status)})));
+                            }
+                        }
+                    }
                     // a problem that is primal AND dual infeasible admits either verdict: a P/D pair is accepted
                     // when the fresh solver's certificate also passes the documented test on the model data (the
                     // live one was judged above)
